@@ -42,5 +42,27 @@ def declare(E):
                   modifies=["msg.packet.pos"])
     E.contract("paramiko.ed25519key.Ed25519Key.verify_ssh_sig",
                requires=dict(POS, key_material_present="notnone(self._signing_key) or notnone(self._verifying_key)"), **common)
-    E.contract("paramiko.rsakey.RSAKey.verify_ssh_sig", requires=dict(POS), **common)
+    # RSA: what reaches the library.  A signature blob naming one of the key's algorithms is always put to the library
+    # (never rejected on its length alone), as the blob's signature left-padded with zero bytes to at least the size of
+    # the modulus (ceil(bits / 8): moduli whose bit length is not a multiple of 8 exist)
+    E.declare_ghost(last_text="str", last_binary="bytes", lib_sig="bytes", lib_key_bits="int")
+    MSG = "paramiko.message.Message."
+    E.contracts[MSG + "get_text"] = dict(E.contracts[MSG + "get_text"], ghost={"last_text": "result"})
+    E.contracts[MSG + "get_binary"] = dict(E.contracts[MSG + "get_binary"], ghost={"last_binary": "result"})
+    G = {"lib_verify_calls": "ghost('lib_verify_calls') + 1", "lib_sig": "a", "lib_key_bits": "self.key_size"}
+    E.contract("CryptoPub.verify", argnames=["self", "a", "b", "c", "d"], returns="none",
+               raises={"InvalidSignature": {"when": "True", "ghost": dict(G)}}, ghost=dict(G))
+    KNOWN = "(ghost('last_text') == 'ssh-rsa' or ghost('last_text') == 'rsa-sha2-256' or ghost('last_text') == 'rsa-sha2-512')"
+    PADLEN = "(len(ghost('lib_sig')) - len(ghost('last_binary')))"
+    rsa = dict(common)
+    rsa["ensures"] = dict(common["ensures"], **{
+        "a_signature_naming_one_of_the_keys_algorithms_is_always_put_to_the_library":
+            "implies(ghost('lib_verify_calls') == old(ghost('lib_verify_calls')), not %s)" % KNOWN,
+        "the_library_gets_the_blobs_signature_left_padded_with_zeros_to_the_size_of_the_modulus":
+            "implies(ghost('lib_verify_calls') > old(ghost('lib_verify_calls')),"
+            " %s >= 0 and len(ghost('lib_sig')) * 8 >= ghost('lib_key_bits')"
+            " and ghost('lib_sig')[%s:] == ghost('last_binary')"
+            " and forall(lambda j: implies(0 <= j and j < %s, at(ghost('lib_sig'), j) == 0)))" % (PADLEN, PADLEN, PADLEN),
+        "true_only_when_the_library_accepted": "implies(result, ghost('lib_verify_calls') == old(ghost('lib_verify_calls')) + 1)"})
+    E.contract("paramiko.rsakey.RSAKey.verify_ssh_sig", requires=dict(POS, no_name_read_yet="ghost('last_text') == ''"), **rsa)
     E.contract("paramiko.ecdsakey.ECDSAKey.verify_ssh_sig", requires=dict(POS), **common)
